@@ -440,6 +440,12 @@ func (w *World) serverCensus() {
 		what string
 	}
 	for _, path := range files {
+		// verification hooks (add-only files `//go:build verif`, exporting aliases for the harnesses) are not part of the product
+		if raw, err := os.ReadFile(path); err == nil && strings.HasPrefix(filepath.Base(path), "zz_verif_") &&
+			strings.HasPrefix(strings.TrimSpace(string(raw)), "//go:build verif\n") {
+			w.hookFiles++
+			continue
+		}
 		f, err := parser.ParseFile(w.fset, path, nil, parser.SkipObjectResolution)
 		if err != nil {
 			add("unparsable file", token.NoPos, path, "", true)
